@@ -103,7 +103,14 @@ func runC20(t *simrt.Tape, o Opts) Outcome {
 					n = len(kb)
 				}
 				if base64Prefix(kb[:n]) == blobID {
-					return !row.Revoked && !at.After(time.Unix(c, 0).Add(pol.Expire))
+					if !row.Revoked && !at.After(time.Unix(c, 0).Add(pol.Expire)) {
+						return true
+					}
+					// an expired or revoked system key is replaced by the first operation that needs a
+					// current one, after which nobody asks for the old one on the write path; only while
+					// no later creation stamp exists (the replacement would collide with it) can it be
+					// legitimately re-read by every operation
+					return !row.Revoked && !at.Before(laterStampFrom(c, pol.Precision))
 				}
 			}
 			return false
